@@ -149,5 +149,93 @@ func directedPrograms() []*Program {
 			&Assign{Target: &Path{Root: "x", Steps: []Step{{Idx: idx}}}, Rhs: strLit("new")},
 			&Rec{Tag: "lc", Args: []Expr{&Builtin{"len", []Expr{&Var{"x"}}}, &Var{"x"}, &Var{"l"}}}}})
 	}
-	return res
+	return append(res, scenarioPrograms()...)
+}
+
+// ---------------------------------------------------------------------------
+// fixed closure / scope / object scenarios (a handful of classic shapes that
+// the random generator reaches only with small probability per program)
+
+func v(n string) *Var                { return &Var{n} }
+func num(f float64) *Lit             { return numLit(f) }
+func set(n string, e Expr) *Assign   { return &Assign{Target: v(n), Rhs: e} }
+func let(n string, e Expr) *Assign   { return &Assign{Let: true, Target: v(n), Rhs: e} }
+func call(f string, a ...Expr) *Call { return &Call{v(f), a} }
+func rec(tag string, a ...Expr) *Rec { return &Rec{tag, a} }
+func plus(a Expr, b float64) *Bin    { return &Bin{"+", a, num(b)} }
+func fn(id int, ps []string, b ...Stmt) *FuncLit {
+	f := &FuncLit{ID: id}
+	for _, p := range ps {
+		f.Params = append(f.Params, Param{Name: p})
+	}
+	f.Body = append([]Stmt{&Rec{Tag: "F" + fmtNum(float64(id))}}, b...)
+	return f
+}
+func dot(root string, keys ...string) *Path {
+	p := &Path{Root: root}
+	for _, k := range keys {
+		p.Steps = append(p.Steps, Step{Dot: true, Idx: strLit(k)})
+	}
+	return p
+}
+
+func scenarioPrograms() []*Program {
+	names := []string{"a", "b", "c", "d", "x", "y", "mk", "c1", "c2", "o", "o2", "A", "B", "C", "D", "i"}
+	P := func(body ...Stmt) *Program { return &Program{Body: body, Names: names} }
+	counter := fn(1, nil, let("x", num(0)), &Return{fn(2, nil, set("x", plus(v("x"), 1)), &Return{v("x")})})
+	return []*Program{
+		// two independent counters made by the same function; a global x stays untouched
+		P(set("x", num(100)), set("mk", counter), set("c1", call("mk")), set("c2", call("mk")),
+			rec("c", call("c1"), call("c1"), call("c2"), call("c1"), v("x"))),
+		// two closures sharing one captured variable
+		P(set("mk", fn(1, nil, let("x", num(0)),
+			&Return{&ListLit{[]Expr{fn(2, nil, set("x", plus(v("x"), 1)), &Return{v("x")}), fn(3, nil, &Return{v("x")})}}})),
+			set("a", call("mk")), set("c1", &Path{Root: "a", Steps: []Step{{Idx: num(0)}}}), set("c2", &Path{Root: "a", Steps: []Step{{Idx: num(1)}}}),
+			rec("s", call("c1"), call("c2"), call("c1"), call("c2"))),
+		// assignment in a function: updates the global if it exists, else stays local
+		P(&FuncDecl{&FuncLit{ID: 1, Name: "mk", Body: []Stmt{rec("F1"), set("y", num(1)), &Return{v("y")}}}},
+			rec("a", call("mk"), v("y")), set("y", num(9)), rec("b", call("mk"), v("y"))),
+		// a parameter shadows the global of the same name; scalars by value, lists by reference
+		P(set("a", num(1)), set("b", &ListLit{[]Expr{num(1), num(2)}}),
+			&FuncDecl{&FuncLit{ID: 1, Name: "mk", Params: []Param{{Name: "a"}, {Name: "b"}}, Body: []Stmt{rec("F1", v("a"), v("b")),
+				set("a", num(5)), &Assign{Target: &Path{Root: "b", Steps: []Step{{Idx: num(0)}}}, Rhs: num(7)}, set("b", &ListLit{[]Expr{num(0)}}), &Return{v("a")}}}},
+			rec("p", call("mk", v("a"), v("b")), v("a"), v("b"))),
+		// let in a block shadows, := in a block updates the outer variable, inner names die
+		P(set("a", num(1)), set("b", num(1)),
+			&If{ID: 1, Cond: &Lit{V: true}, Then: []Stmt{let("a", num(2)), set("a", num(3)), set("b", num(4)), set("c", num(5)), rec("in", v("a"), v("b"), v("c"))}},
+			rec("out", v("a"), v("b"), v("c"))),
+		// closure defined in a block keeps the block's variable alive
+		P(set("c1", num(0)), &If{ID: 1, Cond: &Lit{V: true}, Then: []Stmt{let("x", num(1)), set("c1", fn(2, nil, set("x", plus(v("x"), 1)), &Return{v("x")}))}},
+			&Try{ID: 3, FinID: 4, Body: []Stmt{let("x", num(50))}, Finally: []Stmt{rec("f", v("x"))}},
+			rec("k", call("c1"), call("c1"), v("x"))),
+		// recursion with a local per activation
+		P(&FuncDecl{&FuncLit{ID: 1, Name: "mk", Params: []Param{{Name: "i"}}, Body: []Stmt{rec("F1", v("i")), let("x", &Bin{"*", v("i"), num(10)}),
+			&If{ID: 2, Cond: &Bin{">", v("i"), num(0)}, Then: []Stmt{rec("r", call("mk", &Bin{"-", v("i"), num(1)}))}}, &Return{v("x")}}}},
+			rec("t", call("mk", num(3)), v("x"), v("i"))),
+		// defaults, missing and surplus arguments
+		P(&FuncDecl{&FuncLit{ID: 1, Name: "mk", Params: []Param{{Name: "a"}, {Name: "b", Def: num(2)}, {Name: "c", Def: strLit("d")}}, Body: []Stmt{rec("F1", v("a"), v("b"), v("c")), &Return{v("b")}}}},
+			rec("d", call("mk"), call("mk", num(1)), call("mk", num(1), num(5)), call("mk", num(1), num(5), num(6)), call("mk", num(1), num(5), num(6), num(7)), v("a"), v("b"), v("c"))),
+		// diamond: shared base, both middle templates call the base constructor
+		P(set("A", &MapLit{Keys: []*Lit{strLit("p"), strLit("l"), strLit("init"), strLit("get")}, Vals: []Expr{num(1), &ListLit{[]Expr{num(1)}},
+			fn(1, []string{"a"}, &Assign{Target: dot("this", "ia"), Rhs: v("a")}), fn(2, nil, &Return{dot("this", "p")})}}),
+			set("B", &MapLit{Keys: []*Lit{strLit("super"), strLit("q"), strLit("init")}, Vals: []Expr{&ListLit{[]Expr{v("A")}}, num(2),
+				fn(3, []string{"a"}, &ExprStmt{&Call{&Path{Root: "super", Steps: []Step{{Idx: num(0)}}}, []Expr{plus(v("a"), 1)}}}, &Assign{Target: dot("this", "ib"), Rhs: v("a")})}}),
+			set("C", &MapLit{Keys: []*Lit{strLit("super"), strLit("r"), strLit("init")}, Vals: []Expr{&ListLit{[]Expr{v("A")}}, num(3),
+				fn(4, []string{"a"}, &ExprStmt{&Call{&Path{Root: "super", Steps: []Step{{Idx: num(0)}}}, []Expr{plus(v("a"), 2)}}}, &Assign{Target: dot("this", "ic"), Rhs: v("a")})}}),
+			set("D", &MapLit{Keys: []*Lit{strLit("super"), strLit("p"), strLit("init")}, Vals: []Expr{&ListLit{[]Expr{v("B"), v("C")}}, num(4),
+				fn(5, []string{"a", "b"}, &ExprStmt{&Call{&Path{Root: "super", Steps: []Step{{Idx: num(0)}}}, []Expr{v("a")}}},
+					&ExprStmt{&Call{&Path{Root: "super", Steps: []Step{{Idx: num(1)}}}, []Expr{v("b")}}}, &Assign{Target: dot("this", "id"), Rhs: v("b")})}}),
+			set("o", &Builtin{"new", []Expr{v("D"), num(10), num(20)}}), set("o2", &Builtin{"new", []Expr{v("B"), num(30)}}),
+			&Assign{Target: &Path{Root: "o", Steps: []Step{{Dot: true, Idx: strLit("l")}, {Idx: num(0)}}}, Rhs: num(9)},
+			&Assign{Target: dot("o", "p"), Rhs: num(44)},
+			rec("o", &Call{dot("o", "get"), nil}, dot("o", "q"), dot("o", "r"), dot("o", "ia"), dot("o", "ib"), dot("o", "ic"), dot("o", "id")),
+			rec("o2", &Call{dot("o2", "get"), nil}, dot("o2", "l"), dot("o2", "ia"), dot("o2", "ib"), dot("A", "l"), dot("A", "p"), dot("D", "p"))),
+		// a method taken out of its object still sees the object; template change after new does not reach the instance's scalars
+		P(set("A", &MapLit{Keys: []*Lit{strLit("p"), strLit("get"), strLit("set")}, Vals: []Expr{num(1),
+			fn(1, nil, &Return{dot("this", "p")}), fn(2, []string{"a"}, &Assign{Target: dot("this", "p"), Rhs: v("a")}, &Return{&Lit{V: nil}})}}),
+			set("o", &Builtin{"new", []Expr{v("A")}}), set("o2", &Builtin{"new", []Expr{v("A")}}),
+			set("c1", dot("o", "get")), &ExprStmt{&Call{dot("o", "set"), []Expr{num(5)}}}, &Assign{Target: dot("A", "p"), Rhs: num(8)},
+			set("c", &Builtin{"new", []Expr{v("A")}}),
+			rec("m", call("c1"), &Call{dot("o2", "get"), nil}, &Call{dot("c", "get"), nil}, dot("A", "p"))),
+	}
 }
